@@ -67,6 +67,9 @@ class LinearFilter:
         # compute kernel from these positions
         kernel = self(X, axis=0)
         kernel = _crop(kernel)
+        # position of the centre voxel (the only zero-distance entry, value
+        # 1) inside the cropped kernel; the output window has to start there
+        self._kcenter = np.unravel_index(np.argmax(kernel), kernel.shape)
         self.norms = {'l2':np.sqrt((kernel**2).sum()),
                       'l1':np.fabs(kernel).sum(),
                       'l1sum':kernel.sum()}
@@ -182,8 +185,7 @@ class LinearFilter:
             _slice += 1
         gc.collect()
         slicer = tuple(
-            slice(self._kernel.shape[i] // 2,
-                  self.bshape[i] + self._kernel.shape[i] // 2)
+            slice(self._kcenter[i], self.bshape[i] + self._kcenter[i])
             for i in range(len(self.bshape)))
         _out = _out[slicer]
         if inimage.ndim == 3:
